@@ -24,7 +24,9 @@ REGISTRY = []
 
 class LoopSpec:
     def __init__(self, ordinal, invariants, modifies=(), decreases=None, havoc_kinds=None, index=None,
-                 keep=(), keep_index=False, cut_concrete=False, havoc_with=None):
+                 keep=(), keep_index=False, cut_concrete=False, havoc_with=None, progress=None):
+        self.progress = progress    # integer expression that every pass of the loop strictly increases (towards a finite bound
+                                    # that is assumed, e.g. the number of tokens of the text): rules out a pass that spins in place
         self.havoc_with = havoc_with or {}      # target -> fn(interp, env): contract-specific way of forgetting a location
         self.cut_concrete = cut_concrete    # cut even when the iterable is concrete (body forks on symbolic data)
         self.ordinal = ordinal
